@@ -32,6 +32,31 @@ Lemma Forall2_map_eq : forall {A B C} (f : A -> C) (g : B -> C) l r,
   Forall2 (fun a b => g b = f a) l r -> map g r = map f l.
 Proof. intros A B C f g l r H. induction H; cbn; congruence. Qed.
 
+Lemma Forall2_in_r : forall {A B} (R : A -> B -> Prop) l r b,
+  Forall2 R l r -> In b r -> exists a, In a l /\ R a b.
+Proof.
+  intros A B R l r b H. induction H; intros Hin; [contradiction|].
+  destruct Hin as [E|Hin]; [subst; eexists; split; [now left|eassumption]|].
+  destruct (IHForall2 Hin) as [a [Ha Hr]]. exists a. split; [now right|assumption].
+Qed.
+
+Lemma Forall2_left : forall {A B} (R : A -> B -> Prop) (P : A -> Prop) l r,
+  Forall2 R l r -> (forall a b, R a b -> P a) -> Forall P l.
+Proof. intros A B R P l r H K. induction H; constructor; eauto. Qed.
+
+Lemma mapM_ext_in : forall {A B} (f g : A -> outcome B) l,
+  (forall a, In a l -> f a = g a) -> mapM f l = mapM g l.
+Proof.
+  intros A B f g. induction l as [|a l IH]; intros K; cbn; [reflexivity|].
+  rewrite (K a) by now left. rewrite IH; [reflexivity|]. intros; apply K; now right.
+Qed.
+
+Lemma combine_fst : forall {A B} (l : list A) (r : list B), length l = length r -> map fst (combine l r) = l.
+Proof.
+  intros A B. induction l as [|a l IH]; intros [|b r] H; cbn in *; try reflexivity; try discriminate.
+  f_equal. apply IH. congruence.
+Qed.
+
 (* ---- the debug build panics, or both builds do the same ------------------------------- *)
 Lemma refines_composite_limits : forall glyf g,
   refines (composite_limits Debug glyf g) (composite_limits Release glyf g).
@@ -41,111 +66,19 @@ Proof.
   apply refines_bind; [apply refines_sum_u32|]. intro. apply refines_refl.
 Qed.
 
-Lemma refines_vmetrics : forall o glyphs glyf,
-  refines (vmetrics Debug o glyphs glyf) (vmetrics Release o glyphs glyf).
-Proof.
-  intros o glyphs glyf. unfold vmetrics. apply refines_mapM. intros [g out].
-  apply refines_bind; [apply refines_arith|]. intro. apply refines_refl.
-Qed.
-
 Lemma debug_refines : forall s, refines (build Debug s) (build Release s).
 Proof.
   intro s. unfold build.
   apply refines_bind; [apply refines_mapM; intro; apply refines_build_glyph|]. intro glyf.
+  apply refines_bind; [apply refines_refl|]. intro m.
   apply refines_bind; [apply refines_refl|]. intro nlong.
   apply refines_bind; [apply refines_mapM; intro; apply refines_composite_limits|]. intro cl.
   apply refines_bind; [apply refines_refl|]. intro ng.
   apply refines_bind; [|intro; apply refines_refl].
-  destruct (s_vert s) as [o|]; [|apply refines_refl].
-  apply refines_bind; [apply refines_vmetrics|]. intro. apply refines_refl.
-Qed.
-
-(* ---- a debug build that emits a font emits a faithful one when the casts fit -------------- *)
-Lemma hmtx_advances : forall glyphs glyf, length glyphs = length glyf ->
-  map fst (m_long (hmetrics glyphs glyf)) = map (fun g => ot_round_u16 (g_adv g)) glyphs.
-Proof.
-  intros glyphs glyf L. unfold hmetrics, metrics_of. cbn [m_long]. rewrite !map_map.
-  rewrite <- (map_fst_combine (fun g => ot_round_u16 (g_adv g)) glyphs glyf L).
-  apply map_ext. intros [g o]. unfold hrow, row_adv. cbn [fst].
-  destruct (glyf_bbox o) as [[[[x0 y0] x1] y1]|]; reflexivity.
-Qed.
-
-Lemma vmetrics_debug : forall origin glyphs glyf v, length glyphs = length glyf ->
-  vmetrics Debug origin glyphs glyf = Emit v ->
-  map fst v = map (fun g => ot_round_u16 (g_height g)) glyphs /\
-  map snd v = map (fun o => ot_round_i16 origin - glyf_ymax o) glyf.
-Proof.
-  intros origin glyphs glyf v L H. unfold vmetrics in H. apply mapM_emit in H.
-  assert (Forall2 (fun (gg : glyph_src * glyf_out) (at_ : Z * Z) =>
-            fst at_ = ot_round_u16 (g_height (fst gg)) /\
-            snd at_ = ot_round_i16 origin - glyf_ymax (snd gg)) (combine glyphs glyf) v) as K.
-  { eapply Forall2_impl_in; [exact H|]. intros [g o] [a t] _ E. cbn beta iota in E.
-    apply bind_emit in E. destruct E as [tsb [E1 E2]]. inversion E2; subst a t.
-    apply arith_debug_emit in E1. destruct E1 as [E1 _]. cbn [fst snd]. split; [reflexivity|].
-    rewrite E1. unfold glyf_ymax. destruct (glyf_bbox o) as [[[[x0 y0] x1] y1]|]; reflexivity. }
-  rewrite <- (map_fst_combine (fun g => ot_round_u16 (g_height g)) glyphs glyf L).
-  rewrite <- (map_snd_combine (fun o => ot_round_i16 origin - glyf_ymax o) glyphs glyf L).
-  split; apply Forall2_map_eq; eapply Forall2_impl_in; try exact K; intros gg at_ _ [K1 K2]; assumption.
-Qed.
-
-Lemma forallb_map_exact : forall {A} (f g : A -> Z) (fit : A -> bool) l,
-  (forall a, fit a = true -> f a = g a) -> forallb fit l = true -> map f l = map g l.
-Proof.
-  intros A f g fit l K H. apply map_ext_in. intros a Ha. apply K.
-  rewrite forallb_forall in H. now apply H.
-Qed.
-
-Lemma font_faithful_debug : forall s f,
-  casts_fitb s = true -> build Debug s = Emit f -> faithful s f.
-Proof.
-  intros s f Hc H. unfold build in H. cbv zeta in H.
-  apply bind_emit in H. destruct H as [glyf [Hg H]].
-  apply bind_emit in H. destruct H as [nlong [Hn H]].
-  apply bind_emit in H. destruct H as [cl [Hcl H]].
-  apply bind_emit in H. destruct H as [ng [Hng H]].
-  apply bind_emit in H. destruct H as [vm [Hvm H]]. cbv beta zeta in H. inversion H; subst f; clear H.
-  pose proof (mapM_length _ _ _ Hg) as L. symmetry in L.
-  unfold casts_fitb in Hc. rewrite !andb_true_iff in Hc.
-  destruct Hc as [[[[[[[Cg Ca] Casc] Cdesc] Cgap] Ck] Can] Cv].
-  unfold faithful. cbn [f_glyf f_hmtx f_asc f_desc f_gap f_kern f_anchor f_maxp x_num_glyphs f_vmtx].
-  split; [|split; [|split; [|split; [|split; [|split; [|split; [|split]]]]]]].
-  - apply mapM_emit in Hg. eapply Forall2_impl_in; [exact Hg|]. intros g o Hin E.
-    apply build_glyph_debug_faithful; [|exact E]. rewrite forallb_forall in Cg. now apply Cg.
-  - etransitivity; [exact (hmtx_advances _ _ L)|]. eapply forallb_map_exact; [|exact Ca].
-    intros g Hf. now apply ot_round_u16_exact_iff.
-  - now apply ot_round_i16_exact_iff.
-  - now apply ot_round_i16_exact_iff.
-  - now apply ot_round_i16_exact_iff.
-  - eapply forallb_map_exact; [|exact Ck]. intros k Hf. rewrite metric_i16_eq. now apply ot_round_i16_exact_iff.
-  - apply map_ext_in. intros a Ha. rewrite forallb_forall in Can. specialize (Can a Ha).
-    rewrite !metric_i16_eq. exact (round_pt_exact a Can).
-  - apply unwrap_u16_emit in Hng. tauto.
-  - destruct (s_vert s) as [origin|].
-    + apply bind_emit in Hvm. destruct Hvm as [v [Hv Hvm]].
-      apply bind_emit in Hvm. destruct Hvm as [x [_ Hvm]]. inversion Hvm; subst vm.
-      apply andb_true_iff in Cv. destruct Cv as [Co Ch].
-      destruct (vmetrics_debug _ _ _ _ L Hv) as [V1 V2]. exists v. split; [reflexivity|]. split.
-      * rewrite V1. eapply forallb_map_exact; [|exact Ch]. intros g Hf. now apply ot_round_u16_exact_iff.
-      * rewrite V2. apply map_ext. intro o.
-        replace (ot_round_i16 origin) with (ot_round origin) by (symmetry; now apply ot_round_i16_exact_iff).
-        reflexivity.
-    + now inversion Hvm.
+  destruct (s_vert s) as [o|]; apply refines_refl.
 Qed.
 
 (* ---- checked limits ------------------------------------------------------------------------ *)
-(* more than 65535 glyphs: no profile emits a font *)
-Lemma too_many_glyphs_rejected : forall p s, 65535 < zlen (s_glyphs s) -> emitted (build p s) = false.
-Proof.
-  intros p s H. unfold build.
-  destruct (mapM (build_glyph p (s_glyphs s)) (s_glyphs s)) as [glyf| |]; cbn [bind emitted]; try reflexivity.
-  destruct (try_u16 _) as [nlong| |]; cbn [bind emitted]; try reflexivity.
-  destruct (mapM (composite_limits p glyf) glyf) as [cl| |]; cbn [bind emitted]; try reflexivity.
-  unfold unwrap_u16. assert (fits_u16 (zlen (s_glyphs s)) = false) as F by (unfold fits_u16; lia).
-  rewrite F. reflexivity.
-Qed.
-
-(* composite totals: for at most 65536 components the sums cannot overflow u32, so the
-   outcome is the exact total or a rejection, the same in both profiles *)
 Lemma comp_limit_range : forall glyf c, 0 <= fst (comp_limit glyf c) <= 65535 /\ 0 <= snd (comp_limit glyf c) <= 65535.
 Proof.
   intros glyf c. unfold comp_limit. destruct (nth_error glyf (Z.to_nat (co_gid c))) as [g|]; [|cbn; lia].
@@ -171,4 +104,224 @@ Proof.
   rewrite (K snd) by (intro c; apply (comp_limit_range glyf c)). cbn [bind].
   fold pts ctr. unfold try_u16. destruct (fits_u16 pts); cbn; [|reflexivity].
   destruct (fits_u16 ctr); reflexivity.
+Qed.
+
+(* more than 65535 glyphs: no profile emits a font *)
+Lemma too_many_glyphs_rejected : forall p s, 65535 < zlen (s_glyphs s) -> emitted (build p s) = false.
+Proof.
+  intros p s H. unfold build.
+  destruct (mapM (build_glyph p (s_glyphs s)) (s_glyphs s)) as [glyf| |]; cbn [bind emitted]; try reflexivity.
+  destruct (hmetrics _ _) as [m| |]; cbn [bind emitted]; try reflexivity.
+  destruct (try_u16 _) as [nlong| |]; cbn [bind emitted]; try reflexivity.
+  destruct (mapM (composite_limits p glyf) glyf) as [cl| |]; cbn [bind emitted]; try reflexivity.
+  unfold unwrap_u16. assert (fits_u16 (zlen (s_glyphs s)) = false) as F by (unfold fits_u16; lia).
+  rewrite F. reflexivity.
+Qed.
+
+(* ---- profile independence for composites of at most 65536 components ------------------------ *)
+Definition comps_boundedb (g : glyph_src) : bool :=
+  match g with SrcSimple _ _ _ => true | SrcComposite _ _ comps => zlen comps <=? 65536 end.
+
+Lemma simple_glyph_not_composite : forall p cs outs b, simple_glyph p cs <> Emit (GComposite outs b).
+Proof.
+  intros p cs outs b H. destruct cs as [|c cs]; [cbn in H; discriminate|].
+  rewrite simple_glyph_eq in H by discriminate.
+  destruct (outline_checksb (c :: cs)); [destruct (32767 <=? zlen (c :: cs)); discriminate|].
+  destruct (_ && _); discriminate.
+Qed.
+
+Lemma build_glyph_composite_len : forall p glyphs g outs b,
+  build_glyph p glyphs g = Emit (GComposite outs b) -> comps_boundedb g = true -> zlen outs <= 65536.
+Proof.
+  intros p glyphs g outs b H Hb. destruct g as [a h cs|a h comps].
+  - cbn in H. exfalso. eapply simple_glyph_not_composite; eauto.
+  - destruct comps as [|ct comps]; [cbn in H; discriminate|].
+    rewrite build_glyph_composite in H. cbv zeta in H.
+    destruct (decomposes (ct :: comps)); [exfalso; eapply simple_glyph_not_composite; eauto|].
+    destruct (forallb offset_fitsb (ct :: comps)); [|discriminate]. unfold emit_composite in H. inversion H; subst.
+    cbn [comps_boundedb] in Hb. unfold zlen in *. cbn [length] in *. rewrite map_length. lia.
+Qed.
+
+Lemma build_profile_indep : forall s,
+  forallb comps_boundedb (s_glyphs s) = true -> build Debug s = build Release s.
+Proof.
+  intros s Hb. unfold build.
+  rewrite (mapM_ext_in (build_glyph Debug (s_glyphs s)) (build_glyph Release (s_glyphs s)))
+    by (intros; apply build_glyph_profile_indep).
+  destruct (mapM (build_glyph Release (s_glyphs s)) (s_glyphs s)) as [glyf| |] eqn:G; cbn [bind]; try reflexivity.
+  destruct (hmetrics _ _) as [m| |]; cbn [bind]; try reflexivity.
+  destruct (try_u16 _) as [nlong| |]; cbn [bind]; try reflexivity.
+  rewrite (mapM_ext_in (composite_limits Debug glyf) (composite_limits Release glyf)); [reflexivity|].
+  intros o Ho. destruct o as [|so|outs b]; try reflexivity.
+  apply mapM_emit in G. destruct (Forall2_in_r _ _ _ _ G Ho) as [g [Hg E]].
+  rewrite forallb_forall in Hb.
+  pose proof (build_glyph_composite_len _ _ _ _ _ E (Hb g Hg)) as L.
+  rewrite !composite_limits_exact by exact L. reflexivity.
+Qed.
+
+(* ---- an emitted font is faithful when the remaining saturating sites fit ----------------------- *)
+Lemma hmetrics_emit : forall glyphs glyf m, length glyphs = length glyf ->
+  hmetrics glyphs glyf = Emit m ->
+  map fst (m_long m) = map (fun g => ot_round (g_adv g)) glyphs /\
+  forallb (fun g => fits_u16 (ot_round (g_adv g))) glyphs = true.
+Proof.
+  intros glyphs glyf m L H. unfold hmetrics in H.
+  apply bind_emit in H. destruct H as [rows [Hr H]]. inversion H; subst m; clear H.
+  apply mapM_emit in Hr.
+  assert (Forall2 (fun (gg : glyph_src * glyf_out) (r : mrow) =>
+            row_adv r = ot_round (g_adv (fst gg)) /\ fits_u16 (ot_round (g_adv (fst gg))) = true)
+          (combine glyphs glyf) rows) as K.
+  { eapply Forall2_impl_in; [exact Hr|]. intros [g o] r _ E. unfold hrow in E.
+    apply bind_emit in E. destruct E as [adv [E1 E2]]. apply try_u16_emit in E1. destruct E1 as [E1 F].
+    cbn [fst]. split; [|exact F]. subst adv.
+    destruct (glyf_bbox o) as [[[[x0 y0] x1] y1]|]; inversion E2; reflexivity. }
+  split.
+  - unfold metrics_of. cbn [m_long]. rewrite map_map. cbn [fst].
+    rewrite <- (map_fst_combine (fun g => ot_round (g_adv g)) glyphs glyf L).
+    apply Forall2_map_eq. eapply Forall2_impl_in; [exact K|]. intros gg r _ [K1 _]. exact K1.
+  - apply forallb_forall. intros g Hg.
+    assert (Forall (fun gg : glyph_src * glyf_out => fits_u16 (ot_round (g_adv (fst gg))) = true) (combine glyphs glyf)) as F
+      by (eapply Forall2_left; [exact K|]; intros gg r [_ K2]; exact K2).
+    rewrite <- (combine_fst glyphs glyf L) in Hg. apply in_map_iff in Hg. destruct Hg as [gg [E Hgg]]. subst g.
+    rewrite Forall_forall in F. now apply F.
+Qed.
+
+Lemma vmetrics_emit : forall p origin glyphs glyf v, length glyphs = length glyf ->
+  vmetrics p origin glyphs glyf = Emit v ->
+  map fst v = map (fun g => ot_round_u16 (g_height g)) glyphs /\
+  map snd v = map (fun o => ot_round_i16 origin - glyf_ymax o) glyf /\
+  forallb (fun o => fits_i16 (ot_round_i16 origin - glyf_ymax o)) glyf = true.
+Proof.
+  intros p origin glyphs glyf v L H. unfold vmetrics in H. apply mapM_emit in H.
+  assert (Forall2 (fun (gg : glyph_src * glyf_out) (at_ : Z * Z) =>
+            fst at_ = ot_round_u16 (g_height (fst gg)) /\
+            snd at_ = ot_round_i16 origin - glyf_ymax (snd gg) /\
+            fits_i16 (ot_round_i16 origin - glyf_ymax (snd gg)) = true) (combine glyphs glyf) v) as K.
+  { eapply Forall2_impl_in; [exact H|]. intros [g o] [a t] _ E. cbn beta iota in E.
+    apply bind_emit in E. destruct E as [tsb [E1 E2]]. inversion E2; subst a t.
+    apply try_i16_emit in E1. destruct E1 as [E1 F]. cbn [fst snd].
+    assert (match glyf_bbox o with Some (_, _, _, y1) => y1 | None => 0 end = glyf_ymax o) as Y by reflexivity.
+    rewrite Y in *. auto. }
+  rewrite <- (map_fst_combine (fun g => ot_round_u16 (g_height g)) glyphs glyf L).
+  rewrite <- (map_snd_combine (fun o => ot_round_i16 origin - glyf_ymax o) glyphs glyf L).
+  split; [|split].
+  - apply Forall2_map_eq. eapply Forall2_impl_in; [exact K|]. intros gg at_ _ [K1 _]. exact K1.
+  - apply Forall2_map_eq. eapply Forall2_impl_in; [exact K|]. intros gg at_ _ [_ [K2 _]]. exact K2.
+  - apply forallb_forall. intros o Ho.
+    assert (Forall (fun gg : glyph_src * glyf_out => fits_i16 (ot_round_i16 origin - glyf_ymax (snd gg)) = true) (combine glyphs glyf)) as F
+      by (eapply Forall2_left; [exact K|]; intros gg r [_ [_ K3]]; exact K3).
+    assert (map snd (combine glyphs glyf) = glyf) as S.
+    { clear -L. revert glyf L. induction glyphs as [|a l IH]; intros [|b r] L; cbn in *; try reflexivity; try discriminate.
+      f_equal. apply IH. congruence. }
+    rewrite <- S in Ho. apply in_map_iff in Ho. destruct Ho as [gg [E Hgg]]. subst o.
+    rewrite Forall_forall in F. now apply F.
+Qed.
+
+Lemma forallb_map_exact : forall {A} (f g : A -> Z) (fit : A -> bool) l,
+  (forall a, fit a = true -> f a = g a) -> forallb fit l = true -> map f l = map g l.
+Proof.
+  intros A f g fit l K H. apply map_ext_in. intros a Ha. apply K.
+  rewrite forallb_forall in H. now apply H.
+Qed.
+
+(* the pieces of an emitted font *)
+Lemma build_emit_parts : forall p s f, build p s = Emit f ->
+  exists glyf m v,
+    mapM (build_glyph p (s_glyphs s)) (s_glyphs s) = Emit glyf /\
+    hmetrics (s_glyphs s) glyf = Emit m /\
+    fits_u16 (zlen (s_glyphs s)) = true /\
+    match s_vert s with
+    | None => v = None
+    | Some origin => exists vv, v = Some vv /\ vmetrics p origin (s_glyphs s) glyf = Emit vv
+    end /\
+    f_glyf f = glyf /\ f_hmtx f = m_long m /\ f_vmtx f = v /\
+    x_num_glyphs (f_maxp f) = zlen (s_glyphs s) /\
+    f_asc f = ot_round_i16 (s_asc s) /\ f_desc f = ot_round_i16 (s_desc s) /\ f_gap f = ot_round_i16 (s_gap s) /\
+    f_kern f = map metric_i16 (s_kern s) /\
+    f_anchor f = map (fun a => (metric_i16 (fst a), metric_i16 (snd a))) (s_anchor s).
+Proof.
+  intros p s f H. unfold build in H. cbv zeta in H.
+  apply bind_emit in H. destruct H as [glyf [Hg H]].
+  apply bind_emit in H. destruct H as [m [Hm H]].
+  apply bind_emit in H. destruct H as [nlong [Hn H]].
+  apply bind_emit in H. destruct H as [cl [Hcl H]].
+  apply bind_emit in H. destruct H as [ng [Hng H]].
+  apply bind_emit in H. destruct H as [vm [Hvm H]]. cbv beta zeta in H. inversion H; subst f; clear H.
+  apply unwrap_u16_emit in Hng. destruct Hng as [Hng Hfit]. subst ng.
+  exists glyf, m, vm. cbn [f_glyf f_hmtx f_vmtx f_maxp x_num_glyphs f_asc f_desc f_gap f_kern f_anchor].
+  repeat (split; [first [assumption|reflexivity]|]).
+  split; [|repeat split; reflexivity].
+  destruct (s_vert s) as [origin|].
+  - apply bind_emit in Hvm. destruct Hvm as [v [Hv Hvm]].
+    apply bind_emit in Hvm. destruct Hvm as [x [_ Hvm]]. inversion Hvm; subst vm. eauto.
+  - now inversion Hvm.
+Qed.
+
+Lemma font_faithful : forall p s f,
+  known_sites_fitb s = true -> build p s = Emit f -> faithful s f.
+Proof.
+  intros p s f Hc H.
+  destruct (build_emit_parts _ _ _ H) as [glyf [m [v [Hg [Hm [Hfit [Hv [E1 [E2 [E3 [E4 [E5 [E6 [E7 [E8 E9]]]]]]]]]]]]]]].
+  pose proof (mapM_length _ _ _ Hg) as L. symmetry in L.
+  unfold known_sites_fitb in Hc. rewrite !andb_true_iff in Hc.
+  destruct Hc as [[[[[[Cg Casc] Cdesc] Cgap] Ck] Can] Cv].
+  unfold faithful. rewrite E1, E2, E3, E4, E5, E6, E7, E8, E9.
+  split; [|split; [|split; [|split; [|split; [|split; [|split; [|split]]]]]]].
+  - apply mapM_emit in Hg. eapply Forall2_impl_in; [exact Hg|]. intros g o Hin E.
+    eapply build_glyph_emit_faithful; [|exact E]. rewrite forallb_forall in Cg. now apply Cg.
+  - exact (proj1 (hmetrics_emit _ _ _ L Hm)).
+  - now apply ot_round_i16_exact_iff.
+  - now apply ot_round_i16_exact_iff.
+  - now apply ot_round_i16_exact_iff.
+  - eapply forallb_map_exact; [|exact Ck]. intros k Hf. rewrite metric_i16_eq. now apply ot_round_i16_exact_iff.
+  - apply map_ext_in. intros a Ha. rewrite forallb_forall in Can. specialize (Can a Ha).
+    rewrite !metric_i16_eq. exact (round_pt_exact a Can).
+  - reflexivity.
+  - destruct (s_vert s) as [origin|]; [|exact Hv].
+    destruct Hv as [vv [Ev Hvv]]. apply andb_true_iff in Cv. destruct Cv as [Co Ch].
+    destruct (vmetrics_emit _ _ _ _ _ L Hvv) as [V1 [V2 _]]. exists vv. split; [exact Ev|]. split.
+    + rewrite V1. eapply forallb_map_exact; [|exact Ch]. intros g Hf. now apply ot_round_u16_exact_iff.
+    + rewrite V2. apply map_ext. intro o.
+      replace (ot_round_i16 origin) with (ot_round origin) by (symmetry; now apply ot_round_i16_exact_iff).
+      reflexivity.
+Qed.
+
+(* ---- an emitted font passed every checked site ------------------------------------------------ *)
+Lemma build_glyph_emit_checks : forall p glyphs g o,
+  build_glyph p glyphs g = Emit o -> glyph_checksb glyphs g = true.
+Proof.
+  intros p glyphs g o H. destruct g as [a h cs|a h comps]; cbn [glyph_checksb].
+  - destruct cs as [|c cs]; [reflexivity|]. cbn [build_glyph] in H.
+    rewrite simple_glyph_eq in H by discriminate.
+    destruct (outline_checksb (c :: cs)); [reflexivity|]. destruct (_ && _); discriminate.
+  - destruct comps as [|ct comps]; [reflexivity|].
+    rewrite build_glyph_composite in H. cbv zeta in H.
+    destruct (decomposes (ct :: comps)).
+    + destruct (decompose glyphs (ct :: comps)) as [|d ds] eqn:D; [reflexivity|].
+      rewrite simple_glyph_eq in H by discriminate.
+      destruct (outline_checksb (d :: ds)); [reflexivity|]. destruct (_ && _); discriminate.
+    + destruct (forallb offset_fitsb (ct :: comps)); [reflexivity|discriminate].
+Qed.
+
+Lemma font_emit_checks : forall p s f, build p s = Emit f ->
+  forallb (glyph_checksb (s_glyphs s)) (s_glyphs s) = true /\
+  forallb (fun g => fits_u16 (ot_round (g_adv g))) (s_glyphs s) = true /\
+  zlen (s_glyphs s) <= 65535 /\
+  match s_vert s with
+  | None => True
+  | Some origin => forallb (fun o => fits_i16 (ot_round_i16 origin - glyf_ymax o)) (f_glyf f) = true
+  end.
+Proof.
+  intros p s f H.
+  destruct (build_emit_parts _ _ _ H) as [glyf [m [v [Hg [Hm [Hfit [Hv [E1 _]]]]]]]].
+  pose proof (mapM_length _ _ _ Hg) as L. symmetry in L.
+  split; [|split; [|split]].
+  - apply forallb_forall. intros g Hin. apply mapM_emit in Hg.
+    assert (Forall (fun g => glyph_checksb (s_glyphs s) g = true) (s_glyphs s)) as F
+      by (apply (Forall2_left _ (fun g => glyph_checksb (s_glyphs s) g = true) _ _ Hg); intros a b E; eapply build_glyph_emit_checks; exact E).
+    rewrite Forall_forall in F. now apply F.
+  - exact (proj2 (hmetrics_emit _ _ _ L Hm)).
+  - apply fits_u16_iff in Hfit. lia.
+  - destruct (s_vert s) as [origin|]; [|exact I].
+    destruct Hv as [vv [_ Hvv]]. rewrite E1. exact (proj2 (proj2 (vmetrics_emit _ _ _ _ _ L Hvv))).
 Qed.
